@@ -1,7 +1,7 @@
 (* Entry points of the extracted model: [run cmd arg]. *)
 From Coq Require Import NArith List Bool.
 From PV Require Import Base.Sx Model.Forest Model.Table Model.LRDriver Model.Scan Model.Parser
-  Validators.TableStruct Extract.Codec.
+  Validators.TableStruct Extract.Codec Extract.RunC13.
 Import ListNotations.
 Local Open Scope N_scope.
 
@@ -37,5 +37,12 @@ Definition run (cmd : N) (arg : sx) : sx :=
   | 3 => run_table_struct arg
   | 4 => run_lr_parse arg
   | 5 => run_tree_ok arg
+  | 130 => run_c13_0 arg
+  | 131 => run_c13_1 arg
+  | 132 => run_c13_2 arg
+  | 133 => run_c13_3 arg
+  | 134 => run_c13_4 arg
+  | 135 => run_c13_5 arg
+  | 136 => run_c13_6 arg
   | _ => L [A 999999]
   end.
